@@ -36,6 +36,7 @@ import (
 	"strconv"
 	"strings"
 	"time"
+	"unicode/utf16"
 	"unicode/utf8"
 )
 
@@ -339,7 +340,8 @@ func filterEscapejs(in *Value, param *Value) (*Value, *Error) {
 	idx := 0
 	for idx < len(sin) {
 		c, size := utf8.DecodeRuneInString(sin[idx:])
-		if c == utf8.RuneError {
+		if c == utf8.RuneError && size <= 1 {
+			// invalid UTF-8 (a correctly encoded U+FFFD has size 3)
 			idx += size
 			continue
 		}
@@ -370,6 +372,11 @@ func filterEscapejs(in *Value, param *Value) (*Value, *Error) {
 
 		if (c >= 'a' && c <= 'z') || (c >= 'A' && c <= 'Z') || c == ' ' || c == '/' {
 			b.WriteRune(c)
+		} else if c > 0xFFFF {
+			// \uXXXX takes exactly 4 hex digits; characters outside the BMP
+			// are written as UTF-16 surrogate pair
+			r1, r2 := utf16.EncodeRune(c)
+			b.WriteString(fmt.Sprintf(`\u%04X\u%04X`, r1, r2))
 		} else {
 			b.WriteString(fmt.Sprintf(`\u%04X`, c))
 		}
